@@ -145,3 +145,40 @@ PROPS["C05"] = {
     "stubs": ["Commander: vCmd", "go-health scheduler: harness-driven (no check is ever delivered in this harness)", "os.Stat of the bad working dir: not found"],
     "assumptions": ["depth 3 (deeper chains by the same argument per edge)"],
 }
+
+# ---- claim texts per property (MANIFEST level_claimed / level_note) ----
+LEVELS = {}
+NOT_APPLICABLE = [
+    {"property_id": "C20", "reason": "data-race freedom needs preemption between arbitrary memory accesses and an encoding of Go's memory model; the engine's scheduler switches only at blocking operations and labelled yield points, so it is blind to exactly the unsynchronised accesses the property is about (DESIGN.md 7/C20)"},
+]
+
+def _lv(pid, text, note, **kw):
+    LEVELS[pid] = dict(text=text, note=note, **kw)
+
+_lv("C02", "Decision kernel isRestartable/getBackoff for every policy string, exit code, restart count, max_restarts>=0, stop flag (solver-decided, full int ranges); plus the real restart loop of one process (4 scripted exits, policy x max x backoff, one stop request at any labelled instant, delay bound d) with launch/exit ground truth from a stub Commander and virtual time.",
+    "Stub Commander through the verif seam; virtual clock; preemption only at labelled yields/blocking ops; max_restarts>=0; seconds within 2^31.")
+_lv("C03", "The real runner (NewProjectRunner, Run, ShutDownProject, Process life cycle) on 2-process projects; ShutDownProject() made to arrive at every labelled life-cycle point of either process (choice) with delay bound d; oracle at return of the call and at quiescence.",
+    "Stub Commander reacting to the signal; N=2; preemption at labelled yields/blocking ops only; OS signals to the binary outside. Known finding: shutdown while Run() still registers processes.")
+_lv("C05", "Real runner on the chain a<-b<-c, all 9 combinations of the three unsatisfiable conditions, four failure modes of a, exit_on_skipped on/off, delay bound d: dependents never launched, Skipped with non-zero exit code, no hang, project code 1.",
+    "Stub Commander; go-health scheduler stubbed (no check delivered); os.Stat stub for the bad directory; depth 3.")
+_lv("C06", "Decision kernel of the OS-level stop: (*CmdWrapper).Stop and SetCmdArgs for every signal value, parent_only, pid/pgid, Getpgid failure: effective signal, whole group (negative pgid) vs parent only, exactly one call; own process group requested.",
+    "syscall.Getpgid/Kill and os.Process.Signal are recording stubs; kernel semantics (process groups, descendants, signal delivery to the binary) are outside; counterexamples are not replayed natively (would signal arbitrary pids).",
+    technique="bounded symbolic execution of the real SSA with z3 (engine-only: no native replay for this harness)")
+_lv("C07", "validateNoCircularDependencies + validateDependencyIsEnabled against a Warshall reference for all 2^9 graphs over 3 names (+dangling edge; 2^16 over 4 names and all map orders in the thorough tier); GetDependenciesOrderNames for all DAGs x disabled/foreground markings x map orders: each runnable process once, dependencies first.",
+    "Project values built directly (YAML outside); replicas=1 on depended-upon processes.")
+_lv("C10", "ValidateAndSetDefaults for five full-range ints and the HTTP target strings (legal effective values, idempotent); healthCheckCompleted for thresholds [-1,4] over every outcome sequence of 6 checks and every stop instant: ok flag = outcome, fatal exactly at the threshold-th consecutive failure, silence after stop.",
+    "go-health scheduler replaced by its callback contract; probes themselves (HTTP/exec) not run.")
+_lv("C12", "runningProcessesReverseDependencies for every dependency relation over 3 names, every running subset and every map iteration order: table = exactly the running dependents.",
+    "Kernel level (L1); the assembled ordered shutdown is covered by C12's project harness where registered.")
+_lv("C13", "CalculateReplicaName for every replica count 1..128 (1..1100 thorough) and symbolic replica numbers i<j<n: bare name for n=1, otherwise distinct names of equal length with the expected prefix.",
+    "math.Log10 evaluated natively on the concrete count.")
+_lv("C14", "ProcessConfig.Compare on two configurations with symbolic launch-relevant settings, executable/arguments derived by the real AssignProcessExecutableAndArgs from command or entrypoint: Compare=true implies agreement on every launch-relevant field; reflexive.",
+    "reflect.DeepEqual modelled structurally; strings len<=3; one dependency, one env entry, two probes.")
+_lv("C15", "mergeSlice(toEnvVarMap,toEnvVarSlice) on base<=2 / override<=1 entries over keys {A,B} with every value over {'=','x'} up to length 2 (3 thorough): result equals last-wins lookup of override-else-base, byte for byte.",
+    "mergo.Map on flat maps bound to its contract under symgo (real mergo natively); mergo's deep merge of ProcessConfig and YAML are outside (reduced scope).")
+_lv("C17", "getProcessEnvironment for symbolic inherited/global/per-process layers: own PC_PROC_NAME/PC_REPLICA_NUM win under exec's last-duplicate-wins, per-process > global > inherited for other keys.",
+    "os.Environ bound to the harness list; .env parsing and load-time expansion are covered only where registered.")
+_lv("C18", "GetLogRange for every buffer length 0..1100 and full-int64 offset/limit on an abstract buffer: never panics, returns exactly the clamped window (start and length).",
+    "Abstract backing store (only offset/len/cap tracked).")
+_lv("C19", "Every JSON handler of pc_api.go against a recording IProject with symbolic outcomes: right operation once with decoded parameters, 400/207/200 mapping, malformed body or non-numeric path parameter -> 400 without a call, never 5xx.",
+    "gin.Context response/body methods stubbed under symgo (real gin test context natively); routing, HTTP, JSON and the client package outside (reduced scope).")
